@@ -67,11 +67,11 @@ theorem C04_alone (venv : VEnv) (x : Name) :
   rw [mapSplits_single]
   rfl
 
-/-- The same inside outer/inner splitters: for every `KeysOK` tree (all trees with ≤ 4 fields) whose nested fields are
+/-- The same inside outer/inner splitters: for EVERY tree (any number of fields) whose nested fields are
     rectangular down to their container dimension, every job sees the matching depth-`n` element of every field. -/
-theorem C04_in_splitters (venv : VEnv) (s : Spl) (hwf : WellFormed s) (hk : KeysOK s) (hr : Rectangular venv s) :
+theorem C04_in_splitters (venv : VEnv) (s : Spl) (hwf : WellFormed s) (hr : Rectangular venv s) :
     statesVal venv s = ofSpec (expandVal venv s) :=
-  C01_refines venv s hwf hk hr
+  C01_refines venv s hwf hr
 
 /-- Witness D3 (ragged): `[[1,2],[3]]` with container dimension 2 runs over 1, 2 only; 3 is dropped. -/
 theorem C04_witness_ragged :
